@@ -9,8 +9,10 @@ CLAIMS = {
              "tolerance is only forwarded/defaulted (monotone uses); (T3) is_physical is eq(atol_eq) and ineq(atol_ineq) and each "
              "sub-verdict forwards to its designated test; (T3') reference constants (trace vs 1, POVM sum vs identity(dim), HS row 0 vs "
              "e0, PSD = hermitian and all filtered eigenvalues >= 0); (T4) constructors pass the physicality guard on every normal path "
-             "after the verdict's fields are assigned; (T5) zero/origin objects are built unguarded from np.zeros / _generate_* values.",
-        note="Not decided: numerical correctness of eigenvalue routines and conversions, physicality of the origin object, "
+             "after the verdict's fields are assigned; (T5) zero/origin objects are built unguarded from np.zeros / _generate_* values; (T6) the "
+             "origin builders hold the constants that make the origin object physical (d^-1/2 e0, d^1/2/m e0, e0 e0^T, (1/m) e0 e0^T with m "
+             "the number of outcomes); the generic-basis TP test maps basis element i to COLUMN i of the HS matrix.",
+        note="Not decided: numerical correctness of eigenvalue routines and conversions, "
              "floating-point behaviour at the tolerance boundary. Trusted: python ast, qsa's closeness-predicate table.",
         technique=TECH + "interprocedural tolerance-taint flow over the resolved call graph, CFG must-pass-through and definite "
                          "assignment, normal-form matching of reference constants"),
@@ -21,19 +23,24 @@ CLAIMS = {
              "(R3) basis changes are U.hs.U† / U.vec with U_ab = vdot(to_a, from_b), Kraus->HS uses kron(K, conj K); (R4) the sparse "
              "tables are built with the conjugation/transposition their names state, accessors guard/build/return their own field and "
              "each *_with_sparsity conversion reads the table of its own direction; (R5) State/Povm/Gate/MProcess fill every "
-             "self.__class__(...) / _generate_from_var_func() slot with a callee the call binds to.",
-        note="Not decided: agreement of each conversion with its defining formula, round trips, linearity, index transpositions inside "
-             "the dictionary-based Choi loops, truncation - all numerical. Trusted: the naming convention as the tag oracle.",
+             "self.__class__(...) / _generate_from_var_func() slot with a callee the call binds to; (R4, orientation) the coefficient vector "
+             "handed to a pre-computed table and the reshape of the result follow the row order / element flattening read off the table "
+             "builder; (R6) an option (defaulted parameter) accepted under the same name by a conversion and its delegate is handed on; "
+             "(R7) the two dictionary fast paths compute sum conj(M_ab[r,c]) C[r,c] and sum HS[a,b] M_ab[r,c] against the layout their "
+             "builder stores.",
+        note="Not decided: agreement of each dense conversion with its defining formula, round trips, linearity, "
+             "truncation - all numerical. Trusted: the naming convention as the tag oracle.",
         technique=TECH + "definedness/arity checking over a resolved call graph, naming-convention type tags, matrix-product normal "
-                         "form (conj/transpose algebra), table-direction agreement, slot (function-pointer) conformance"),
+                         "form (conj/transpose algebra), table-direction and layout agreement derived from the builders, index-contraction parity, "
+                         "option-forwarding who-must-pass rule, slot (function-pointer) conformance"),
     "C03": dict(
         text="Decides, exactly and for every index, dimension and outcome count: (I1) the four variable-index <-> object-index map "
              "pairs are mutual inverses under both flags (symbolic evaluation of their divmod arithmetic, both compositions, all "
              "branches); (I2) each gradient one-hot is stored at the index the forward map returns; (I3) num_variables of the four "
              "tomography classes equals the variable index of the last free entry + 1; (I4) SetQOperations uses one kind order in all "
              "five places; (I5) implied constants and positions agree at 25 sites (d^-1/2, d^1/2 e0, d^1/2/m, e0, e0 - sum of first "
-             "rows at block m-1; delete/insert positions match); (I6) slot conformance; (I7) re-creating methods carry every stored "
-             "constructor field.",
+             "rows at block m-1; delete/insert positions match on the insertion and the removal side); (I4b) prefix-sum loops add the size of "
+             "the item their loop variable points at; (I6) slot conformance; (I7) re-creating methods carry every stored constructor field.",
         note="Not decided: value-level round trips of the array conversions (reshape/stack numerics). Known finding F9: "
              "generate_from_var resets mode_proj_order / eps_truncate_imaginary_part / eps_zero.",
         technique=TECH + "exact symbolic interpretation of integer index code over polynomial normal forms, def-use matching, "
@@ -50,7 +57,8 @@ CLAIMS = {
         text="Decides everything in the statement except floating-point accuracy: (L1) the estimate normalises to inv(A^T A) A^T (f - b) "
              "(or pinv(A)(f-b)) with A=calc_matA(), b=calc_vecB(), f=the current dataset's stacked distributions; (L2) the full-rank "
              "guard dominates the inversion; (L3) only element [1] of each dataset entry is read (counts never); (L4) no name is carried "
-             "from one dataset to the next; (L5) result accessors map the template's generate_from_var over the stored estimates.",
+             "from one dataset to the next; (L5) result accessors map the template's generate_from_var over the stored estimates; (L6) the "
+             "single-dataset entry point is the sequence routine on a one-element sequence with every argument handed on as received.",
         note="Not decided: conditioning and exact recovery in floating point; that calc_matA/calc_vecB are the right model (C08).",
         technique=TECH + "matrix-product normal form, CFG dominance, def-use and loop-carried-dependence analysis"),
     "C10": dict(
@@ -58,7 +66,9 @@ CLAIMS = {
              "to_var(calc_proj_physical(linear estimate)) after set_mode_proj_order(self.mode_proj_order); (P2) the four (eq, ineq) flag "
              "combinations select physical / eq / ineq / identity projection, built on the template with its on_para_eq_constraint; (P3) "
              "backtracking iterates are x + a(P(x - grad/mu) - x) with a starting at 1.0 and shrinking by a literal in (0,1), momentum "
-             "and FISTA iterates are P(.), results carry x'; (P4) default start is the template's origin object.",
+             "and FISTA iterates are P(.), results carry x'; (P4) default start is the template's origin object; (P2, options) every option "
+             "handed to the projection factory comes from the like-named option field; (P6) calc_estimate = calc_estimate_sequence on [data]; "
+             "(K1-K4) the projection both estimator families call is Dykstra's scheme (the C05 rules re-run under this property).",
         note="Not decided: that the projection reaches physicality to the stated accuracy; recovery of the truth from exact data.",
         technique=TECH + "def-use with flow-sensitive inlining, CFG dominance, decision-table extraction, affine normal form of the update rules"),
     "C11": dict(
@@ -66,7 +76,9 @@ CLAIMS = {
              "accepted stopping mode has a branch defining the error value in all three algorithms and the loop continues exactly while the "
              "windowed sum exceeds eps; (A3) the estimator configures loss (with the current dataset), option, constraint, loss-on-algo, "
              "runs the four sufficiency guards, optimises, and returns the optimiser's value; (A4) CVXPY solver / constraint-mode tables "
-             "agree with the dispatch and 'physical' builds the constraints.",
+             "agree with the dispatch and 'physical' builds the constraints; (A5) each stopping mode of the backtracking algorithm measures "
+             "what its name says (loss difference, its absolute value, Euclidean length of the step / of the projected-gradient direction); "
+             "(A6) calc_estimate = calc_estimate_sequence on [data].",
         note="Not decided (out of reach for static analysis): optimality against all competitors, agreement of the two estimators, "
              "monotone decrease as a numerical fact.",
         technique=TECH + "schema matching in affine / scalar-product normal form, table agreement with constant folding, CFG ordering"),
@@ -78,7 +90,7 @@ CLAIMS = {
              "identity mode resets the weights; (W4) symbolic shapes of the inverse-covariance stores agree for every outcome count m; (W5) "
              "value/gradient/Hessian read the same weight and data fields; (W6) the squared-error gradient and Hessian are the symbolic "
              "derivatives of the value's bilinear normal form (generic and fast path), relative-entropy terms use the same (q, p) order "
-             "and weight factor.",
+             "and weight factor; (W7) the model of schedule i is rows [size*i, size*(i+1)) of matA and the same rows of vecB.",
         note="Not decided: the entropy helpers' formulas and clipping (partly pinned by the existing tests), numerical closeness of fast "
              "and generic paths. Known findings F3 (mode accepted, unhandled) and F4 (identity does not reset weights).",
         technique=TECH + "MRO-resolved table agreement, interprocedural must-write and fresh/stale typestate analysis on the CFG, "
@@ -87,7 +99,8 @@ CLAIMS = {
         text="Decides the reproducibility half for every seed and call history: (G1) every random draw in quara (receiver or "
              "random_state=) is def-use derived from to_stream(seed parameter), a Generator, or the sampling object's own random_state; "
              "(G2) no module-level numpy.random draw and no re-seeding outside Experiment.reset_seed_data; (G3) to_stream's three "
-             "branches; (G4) no seed-or-generator parameter is converted, or handed on raw, inside a loop.",
+             "branches (path summaries); (G4) no seed-or-generator parameter is converted, or handed on raw, inside a loop; (G5) a function "
+             "that receives a seed hands a value derived from it to every callee parameter that reaches a draw.",
         note="Not decided: validity of sampled outcomes at the cumulative-sum boundary, prefix counting, distributional agreement "
              "(numerical / statistical).",
         technique=TECH + "def-use analysis of random streams over a resolved call graph with a seed-sink fixpoint"),
@@ -119,12 +132,22 @@ CLAIMS = {
              "tier, enumerated in the thorough tier): (Y1) every function name a dispatch template (eval of a name built from the "
              "catalogued name) can produce under its dominating membership guards exists in the module and the call made through it "
              "binds, branch by branch; (Y2) every such eval is dominated by a catalogue membership test and dispatch chains end in a "
-             "raise / never fall through to an unassigned result; (Y3) the catalogues fold to non-empty duplicate-free lists.",
-        note="Not decided: physicality and mutual agreement of the catalogued matrices, textbook actions (numerical; constant-folding "
-             "numeric matrix code would be running it). Evals over derived locals (split name items, Pauli types) are listed as "
+             "raise / never fall through to an unassigned result; (Y3) the catalogues fold to non-empty duplicate-free lists. By constant "
+             "propagation over the catalogue modules' syntax trees (qsa.consteval; nothing of quara is imported or run): (Y4) for the 15 "
+             "one-qubit and 5 two-qubit gates the hand-written tables agree - U unitary, HS = tr(B_a^† U B_b U^†), exp(-iH) = U, "
+             "sum vec_a B_a = H, Lindbladian = HS(-i[H,.]), exp(L) = HS; (Y5) a gate for permuted qubit ids is the ascending table with "
+             "role k on qubit ids[k] (2- and 3-qubit gates, all permutations); (Y6) the Pauli bases are the textbook ones; (Y7) composite "
+             "names are tensored left to right at every fold site; (Y8) state vectors are normalised, density = v v^†, x/y/z and Bell "
+             "names have the eigen / stabiliser signs they name, composite = Kronecker product of parts, the legacy constructors of "
+             "state.py / gate.py carry the same tables; (Y9) POVM elements are positive and sum to 1, rank-1 elements are projectors on "
+             "their vectors, x/y/z are projectors on the catalogued states, the legacy POVM vectors agree, every named measurement "
+             "process is trace preserving in total and measures the POVM of its base name.",
+        note="Not decided: the 39k two-qutrit gate names' matrices, and every object form that needs a run-time CompositeSystem "
+             "(generate_*_from_name(c_sys, ...)): only their dispatch is decided. Evals over derived locals (split name items, Pauli types) are listed as "
              "informational. Known finding F8 (unguarded eval fall-through in povm_typical).",
         technique=TECH + "constant folding of the string/list fragment, path-sensitive guard evaluation, name-template resolution "
-                         "and call binding, CFG definite assignment"),
+                         "and call binding, CFG definite assignment; constant propagation (an interpreter over the constant fragment of the "
+                         "catalogue syntax trees) with sibling-table agreement on the propagated constants"),
     "C04": dict(
         text="Decides the structural clauses of the projection property for all inputs: (S1) every eigen-decomposition whose eigenvectors "
              "are used reconstructs as V.diag(w).V-dagger with eigh (an eig routine with V-dagger, a plain transpose, a row access or "
@@ -132,17 +155,21 @@ CLAIMS = {
              "alias/effect analysis shows that none of the 16 projection methods, the optimiser closures and the two physical-projection "
              "routines writes to an argument, through views and callees; (S4) equality projections write exactly the constrained "
              "coordinates on a private copy (State, Gate), compute vec - mean + c (Povm) and spread (sum row0 - e0)/m (MProcess), "
-             "object- and variable-level siblings alike.",
+             "object- and variable-level siblings alike (decided on path summaries, so conditional expression, if/else and guard-clause "
+             "spellings are one thing); (S5) an option resolved against the object's own value is used in resolved form below, including "
+             "inside the projection closures.",
         note="Not decided: that the projections are nearest points, idempotence, agreement of object- and variable-level results as numbers.",
         technique=TECH + "matrix-product normal form of spectral reconstructions, may-alias/mutation effect summaries over the call graph "
-                         "(view vs copy numpy table), linear-form comparison, CFG dominance"),
+                         "(view vs copy numpy table), path-sensitive symbolic summaries, linear-form comparison with role identification, CFG dominance"),
     "C13": dict(
         text="Decides the structural reasons results depend on arguments only: (N1) the effect summary of every function (about 1380 in the "
              "quick tier, all 1530 of quara outside the optional-dependency adapters in the thorough tier) mutates no parameter, with "
              "root-cause reporting and a three-entry allow-list of documented configuration calls; (N2) the nine lazy tables of "
              "CompositeSystem are None-initialised, read only through guarded accessors, built from the immutable total basis, and "
              "cleared one by one; (N3) bases and Povm store fresh, frozen arrays; (N4) copy() carries every stored field and deep-copies "
-             "the value; (N5) globals are written only by documented setters; (N6) algorithms re-set every field optimize reads.",
+             "the value; (N5) globals are written only by documented setters; (N6) algorithms re-set every field optimize reads; (N7) in the "
+             "loss / algorithm / estimator / experiment classes no store of an argument-derived field is skipped because of the object's "
+             "own earlier state (hidden memoisation).",
         note="Not decided: byte-level equality over arbitrary interleavings (the rules are the structural reasons it can hold). Sparse "
              "basis elements cannot be frozen by numpy flags and stay writable. Known finding F5 (cached projection closure).",
         technique=TECH + "interprocedural alias/effect analysis with origin tracking, typestate/must-write analysis, cache-coherence "
@@ -154,7 +181,8 @@ CLAIMS = {
              "operands' outcomes are labelled by a shape concatenated in the same order, and all composition helpers are "
              "earlier-operation-major; (O4) Heisenberg products put the POVM vector on the left of the map, the outcome probability is the "
              "trace functional (sqrt(d) * coefficient 0) and the post-state is divided by its own probability; (S1) the projective "
-             "back-action takes eigenvectors as columns and builds v v-dagger; (O5) the n-ary fold is right-to-left.",
+             "back-action takes eigenvectors as columns and builds v v-dagger; (S2) for a repeated eigenvalue the eigenspace projector is "
+             "summed before the quadratic term is formed; (O5) the n-ary fold is right-to-left.",
         note="Not decided: Born-rule numbers, normalisation, physicality of composites, associativity as an equality of numbers.",
         technique=TECH + "guard-typed attribute checking, operand-ownership analysis of matrix products and loop nests, spectral "
                          "discipline rules, scalar d-exponent normal form"),
@@ -164,7 +192,8 @@ CLAIMS = {
              "measurements / ensembles fill their flat lists in the order their shape concatenates the operands; (O1) the 13 tensor "
              "dispatch branches read existing attributes and unsupported pairs raise; (P1) CompositeSystem sorts a copy of its systems "
              "by name before storing and builds the ordered product basis from the stored tuple; (P2) every helper multiplies operand 1 "
-             "first and derives its permutation from the same unsorted concatenation it multiplied in.",
+             "first and derives its permutation from the same unsorted concatenation it multiplied in; (K2) the adjacent-transposition sort "
+             "reads only the working copies it swaps, and swaps order and sizes at the same positions.",
         note="Not decided: that the permutation matrices are the right permutations, product statistics, the qutrit embedding "
              "(numerical). Known finding F2 (measurement-process tensor layout vs shape).",
         technique=TECH + "aggregate-operator (dimension algebra) check, loop-nest/shape ownership agreement, guard-typed attribute "
@@ -173,7 +202,8 @@ CLAIMS = {
         text="Layout clauses only: (X2) exact symbolic evaluation of the two index functions for every rank 1..4 and all radices shows "
              "the encoder is row-major and encoder/decoder are mutual inverses on 0 <= s < prod n; (X1) the six users of multi-indices "
              "go through the encoder with their own shape or through a default-order reshape; (X3) two-index lists are filled in the order "
-             "their shape states.",
+             "their shape states (tensor products and the ensemble compositions); (X4) a distribution re-created from a reduced / sliced "
+             "probability array reports that array's own axis sizes in its axis order.",
         note="Not decided: marginals, conditionals, normalisation, zero thresholds (numerical). Known finding F2.",
         technique=TECH + "exact symbolic interpretation (polynomial normal forms, divmod with range reasoning, loop unrolling), "
                          "who-may-compute rule, loop-nest/shape agreement"),
@@ -181,7 +211,8 @@ CLAIMS = {
         text="Decides the assembly of the forward model: (M1) coefficient matrix and offset vector stack their dictionaries in the same "
              "sorted (schedule, outcome) order and calc_prob_dists applies A x + b to the variables of the parametrisation in force; (M2) "
              "every stored coefficient row has its offset stored under the same key in the same branch; (M3) each tomography class reads "
-             "states / POVMs / its unknown from schedule positions its own validator pins to that kind; (M4) operand roles (outer(povm, "
+             "states / POVMs / its unknown from schedule positions its own validator pins to that kind, and indexes every object list by the "
+             "index read for that kind; (M4) operand roles (outer(povm, "
              "state) row-major; state vector in block m_index; POVM vectors as rows); (M5) offsets and skipped coordinates are those the "
              "parametrisation implies (d^-1/2 povm[0]; d^1/2 state[0] with the last element substituted; c[0] and c[d^2:]).",
         note="Not decided: equality of the affine model and the circuit as maps (the property's own method, comparison on an affine "
@@ -194,7 +225,9 @@ CLAIMS = {
              "negative eigenvalues; (Q1) homogeneity degree: the dissipator built from jump operators must be quadratic in them and the H / "
              "J parts linear; (Q2) the constant first row is the same in verdict, projection and variable conversion, and the conversion "
              "binds the base class's generate_from_var call; (Q3) a class overriding an object-level projection overrides the "
-             "variable-level twin.",
+             "variable-level twin; (Q4) the sparse fast paths hand the pre-computed tables a coefficient vector that enumerates K in the order "
+             "the table rows were built, so every K[r,c] multiplies the same matrix as in the _slowly reference; (Q5) is_cp tests "
+             "calc_k_mat() itself (or its Hermitian part built with the adjoint).",
         note="Not decided: GKSL action, decomposition / recomposition identities, exponentiation (numerical). Known findings F12 "
              "(jump-operator anticommutator part is linear in L) and F7 (variable-level projections inherited from Gate).",
         technique=TECH + "tolerance flow, spectral-discipline normal form, homogeneity-degree (units-style) abstract domain, slot and "
